@@ -13,7 +13,9 @@
 (***************************************************************************)
 EXTENDS Integers, Sequences, FiniteSets
 
-CONSTANT ZeroTag        \* the tag of hash 0 (0 in exhaustive configs, "0" in traces)
+CONSTANTS ZeroTag,      \* the tag of hash 0 (0 in exhaustive configs, "0" in traces)
+          Key(_)        \* what a caller's predicate looks at in a stored value (the value itself, or - when the
+                        \* value type's equality is coarser than identity - the part its comparisons see)
 
 IsPow2(n) == \E k \in 0..30 : n = 2^k
 
@@ -24,9 +26,9 @@ SlotOf(slot, def, i) == IF i \in DOMAIN slot THEN slot[i] ELSE Untouched(def)
 PredHolds(pred, cur) ==
   CASE pred.k = "always" -> TRUE
     [] pred.k = "never"  -> FALSE
-    [] pred.k = "eq"     -> cur = pred.x
-    [] pred.k = "lt"     -> cur < pred.x
-    [] pred.k = "ge"     -> cur >= pred.x
+    [] pred.k = "eq"     -> Key(cur) = pred.x
+    [] pred.k = "lt"     -> Key(cur) < pred.x
+    [] pred.k = "ge"     -> Key(cur) >= pred.x
 
 (* get(h): a value only if the slot holds exactly that hash *)
 GetOp(slot, def, h) ==
